@@ -56,6 +56,9 @@ class HTTP(BaseComponent):
         self._uri = None
         self._clients = {}
         self._buffers = {}
+        # connections on which a message has been rejected: they are being
+        # closed, what still arrives on them is not the start of a request
+        self._rejected = set()
 
     @property
     def version(self):
@@ -209,6 +212,7 @@ class HTTP(BaseComponent):
             del self._clients[sock]
         if sock in self._buffers:
             del self._buffers[sock]
+        self._rejected.discard(sock)
 
     @handler('read')  # noqa
     def _on_read(self, sock, data):
@@ -219,6 +223,9 @@ class HTTP(BaseComponent):
         Split the buffer by the standard HTTP delimiter CRLF and create
         Raw Event per line. Any unfinished lines of text, leave in the buffer.
         """
+        if sock in self._rejected:
+            return None
+
         if sock in self._buffers:
             parser = self._buffers[sock]
         else:
@@ -257,6 +264,7 @@ class HTTP(BaseComponent):
                     # (see the 505 below: answer in a version this server speaks)
                     res.protocol = 'HTTP/{:d}.{:d}'.format(*self.protocol)
                 del self._buffers[sock]
+                self._rejected.add(sock)
                 return self.fire(httperror(req, res, 400))
             return None
 
@@ -292,6 +300,7 @@ class HTTP(BaseComponent):
                 # (answer in the protocol this server speaks, not the one it
                 # has just refused)
                 res.protocol = 'HTTP/{:d}.{:d}'.format(*sp)
+                self._rejected.add(sock)
                 return self.fire(httperror(req, res, 505))
 
             self._clients[sock] = (req, res)
@@ -303,6 +312,7 @@ class HTTP(BaseComponent):
             # the body cannot be completed any more (bad chunk size or chunk
             # terminator): the message is rejected like one with bad headers
             del self._buffers[sock]
+            self._rejected.add(sock)
             return self.fire(httperror(req, res, 400))
 
         clen = int(req.headers.get('Content-Length', '0'))
@@ -317,6 +327,7 @@ class HTTP(BaseComponent):
 
         if req.protocol != (1, 0) and not req.headers.get('Host'):
             del self._buffers[sock]
+            self._rejected.add(sock)
             return self.fire(httperror(req, res, 400, description='No host header defined'))
 
         # Guard against unwanted request paths (SECURITY).
@@ -449,6 +460,8 @@ class HTTP(BaseComponent):
         elif len(fevent.args) == 2 and isinstance(fevent.args[0], socket):
             req = wrappers.Request(fevent.args[0], server=self._server)
             res = wrappers.Response(req, self._encoding, 500)
+            # (the read handler failed in the middle of a message)
+            self._rejected.add(fevent.args[0])
         else:
             return
 
